@@ -527,6 +527,23 @@ def run_fsize(k):
         shutil.rmtree(wd, ignore_errors=True)
 
 
+POW2_TARGETS = [4096, 65536, 524288, 1048576, 2097152 - 4096]
+
+
+def run_pow2(k):
+    """Explicit flushes at the moment the buffer holds exactly (or one byte around) a power of two: first
+    with a fresh buffer (OHx + one jumbo), then with the two markers of the previous flush in front."""
+    target = POW2_TARGETS[k // 3 % len(POW2_TARGETS)] + (k % 3) - 1
+    ops = ["ev OHx 1000 %s" % obs.i32(0, 1000, 0).hex(), "jumbo OB. now %d 3" % (target - 24 - 16), "flush",
+           "jumbo OB. now %d 4" % (target - 24 - 16), "flush", "ev OB. now 0102", "ev OHe now -"]
+    info = {"case": k, "kind": "pow2-flush", "script": make_script([(1000, ops)]), "tmpdir": k % 2 == 1,
+            "autoflush_expected": None, "nostdin": False}
+    out = run_case(600000 + k, info=info)
+    out["i"] = k
+    out["pow2_script"] = info["script"] if out["viol"] else None
+    return out
+
+
 def run_huge(k):
     """One stream larger than 2 GiB (2100 jumbo events of 1 MiB), written directly
     (k even) or relocated from OVNI_TMPDIR (k odd).  The data is not compared byte
@@ -762,6 +779,17 @@ def main(argv):
             if out["viol"]:
                 key, what, obsv = out["viol"]
                 chk.report(key, what, {"huge": out["i"], "observation": obsv})
+        for out in core.pmap(run_pow2, list(range(3 * len(POW2_TARGETS)))):
+            if out["inconclusive"]:
+                chk.note_inconclusive(out["inconclusive"]); continue
+            evaluated += 1
+            kinds[out["kind"]] = kinds.get(out["kind"], 0) + 1
+            for k in tot:
+                tot[k] += out[k]
+            if out["viol"]:
+                key, what, obsv = out["viol"]
+                chk.report(key + ":pow2-flush", what + " [flush of a buffer holding a power of two of bytes]",
+                           {"pow2": out["i"], "script_head": (out.get("pow2_script") or "")[:400], "observation": obsv})
         for out in core.pmap(run_fsize, list(range(6 if chk.tier == "quick" else 120))):
             if out["inconclusive"]:
                 chk.note_inconclusive(out["inconclusive"]); continue
